@@ -399,6 +399,28 @@ func Expected(t Tok, remote string) Expect {
 	return Expect{Kind: "raw", Allowed: []string{t.Str}}
 }
 
+// ForRemote is the view of token t from remote cluster R when one request
+// context is handed to several remotes: the ground truth of a legacy token
+// ("local", "remote-owned", "mixed") is relative to the cluster it is being
+// forwarded to, so it is re-derived from the UUIDs the local cluster knows.
+// Tokens of other classes are returned as they are (Expected derives their
+// ownership from the UUID).
+func ForRemote(t Tok, remote string) Tok {
+	if t.Class != "legacy" || t.Truth == "unknown" || t.Truth == "" {
+		return t
+	}
+	aca, user := strings.HasPrefix(t.ACAUUID, remote), strings.HasPrefix(t.UserUUID, remote)
+	switch {
+	case aca && user:
+		t.Truth = "remote-owned"
+	case aca || user:
+		t.Truth = "mixed"
+	default:
+		t.Truth = "local"
+	}
+	return t
+}
+
 // Describe classifies what was forwarded for token t (for signatures).
 // clusters: every cluster id known in the scenario (to recognise a salt made
 // for the wrong cluster).
@@ -538,6 +560,13 @@ func NewStub(useTLS bool) (*Stub, error) {
 }
 
 func (s *Stub) Close() { s.srv.Close() }
+
+// SetRespond replaces the answering function while the server is running.
+func (s *Stub) SetRespond(f func(r *Req) (int, string)) {
+	s.mu.Lock()
+	s.Respond = f
+	s.mu.Unlock()
+}
 
 // Reset forgets what has been recorded so far.
 func (s *Stub) Reset() {
